@@ -50,7 +50,7 @@ func (b *GenBinder) TypedefNames(mod *ymodel.Module, chain []*ymodel.Body) []ymo
 		if x == nil {
 			return
 		}
-		c := ymodel.TypedefCand{Prefix: prefix, Name: name, Kind: x.Kind, FD: x.FractionDigits}
+		c := ymodel.TypedefCand{Prefix: prefix, Name: name, Kind: x.Kind, FD: x.FractionDigits, Units: x.Units}
 		c.RangeLo, c.RangeHi, c.LengthLo, c.LengthHi = firstIv(x)
 		c.Multi = len(x.Range) > 1 || len(x.Length) > 1
 		out = append(out, c)
